@@ -36,6 +36,8 @@ func runC02(r *Run) {
 		c02Window(r)
 	}
 	c02CompletedThenConnFail(r)
+	// a long backlog at a caller that is not reading: order and completeness when it finally reads (c05b.go)
+	c05LongBacklog(r)
 	if r.Want("yields") && !(hung && r.Only == "") {
 		// a tree on which the plain product hangs would hang here too, at 2*hangTimeout a time
 		c02Yields(r)
